@@ -25,7 +25,7 @@ func (x *Exec) execInstr(fr *Frame, b *ssa.BasicBlock, st *State, in ssa.Instruc
 			for _, l := range leavesOf(at.Elem()) {
 				key, stored, _ := x.leafKey(p, l)
 				arr := x.heapArr(st, key, stored)
-				st.heap[key] = Store(arr, ref, ConstArray(ArraySort(IntSort, l.Sort), x.zeroOfSort(l.Sort)))
+				st.heap[key] = Store(arr, ref, x.zeroOfSort(ArraySort(IntSort, l.Sort)))
 				x.written[key] = true
 			}
 			return
@@ -98,7 +98,7 @@ func (x *Exec) execInstr(fr *Frame, b *ssa.BasicBlock, st *State, in ssa.Instruc
 		for _, l := range leavesOf(et) {
 			key, stored, _ := x.leafKey(p, l)
 			arr := x.heapArr(st, key, stored)
-			st.heap[key] = Store(arr, ref, ConstArray(ArraySort(IntSort, l.Sort), x.zeroOfSort(l.Sort)))
+			st.heap[key] = Store(arr, ref, x.zeroOfSort(ArraySort(IntSort, l.Sort)))
 			x.written[key] = true
 		}
 		fr.regs[in] = &Value{K: KSlice, T: in.Type(), Ref: ref, Off: IntLit(0), Len: n}
@@ -180,6 +180,10 @@ func fieldName(t types.Type, i int) string {
 		return s.Field(i).Name()
 	}
 	return fmt.Sprint(i)
+}
+
+func (x *Exec) constCurriedZ(ks []Leaf, v *Sort) *Term {
+	return x.zeroOfSort(curried(ks, v))
 }
 
 func constCurried(ks []Leaf, v *Sort, val *Term) *Term {
